@@ -124,15 +124,31 @@ def _enclosing_trys(fn, node):
   return out
 
 
+def _reraises(h):
+  """Handler h only adjusts the exception and re-raises it (every path ends in a bare `raise`, none
+  returns): the exception travels on to the next enclosing try."""
+  has_raise = False
+  for x in ast.walk(ast.Module(body=h.body, type_ignores=[])):
+    if isinstance(x, ast.Return):
+      return False
+    if isinstance(x, ast.Raise):
+      if x.exc is not None and not (isinstance(x.exc, ast.Name) and x.exc.id == h.name):
+        return False
+      has_raise = True
+  last = h.body[-1]
+  return has_raise and isinstance(last, ast.Raise)
+
+
 def _handler_for(trys, exc_name):
-  """The handler that receives exception class `exc_name` raised inside the innermost of `trys`."""
+  """The handler that finally deals with exception class `exc_name` raised inside the innermost of
+  `trys` (handlers that merely re-raise it are passed through)."""
   for t in trys:
     for h in t.handlers:
-      if h.type is None:
-        return h
-      hs = h.type.elts if isinstance(h.type, ast.Tuple) else [h.type]
+      hs = [] if h.type is None else (h.type.elts if isinstance(h.type, ast.Tuple) else [h.type])
       got = {(dotted(x) or "").split(".")[-1] for x in hs}
-      if got & {"Exception", "BaseException", exc_name}:
+      if h.type is None or got & {"Exception", "BaseException", exc_name}:
+        if _reraises(h):
+          break         # on to the enclosing try
         return h
   return None
 
@@ -247,38 +263,70 @@ def r2_line_model(run, w):
          lang == {"\r", "\r\n"} and not flags, fi=nfi,
          witness=None if lang == {"\r", "\r\n"} else "language: %r" % (lang,))
   cfg = fn.cfg
-  norm_nodes = nodes_calling_E(fn, lambda c, nm, f: nm == nfi.name)
+  flow = Flow(fn)
+  inline = nfi.qualname == fn.qualname     # the normaliser's statements sit in the function itself
+  patch_calls = [c for c in calls_in(fn.node)
+                 if endswith(dotted(c.func), "make_regexp_patches") and len(c.args) == 3 and
+                 isinstance(c.args[2], ast.Constant) and c.args[2].value == "\n" and
+                 text(c.args[1]) == rxname] if inline else []
+  def is_norm(c, k):
+    """the call that yields the normalised builder"""
+    if not inline:
+      return fn.name(c) == nfi.name
+    return endswith(dotted(c.func), "Replacer") and len(c.args) == 2 and \
+        flow.denotes_some(c.args[1], k, lambda v, kk: any(v is p for p in patch_calls))
+  norm_nodes = {n.id for (n, c, nm) in calls_E(fn) if is_norm(c, n.id)}
+  patch_nodes = {k for p in patch_calls for k in flow.where(p)}
   # line-based consumers of the formula text inside _do_make_formula_body
   consumers = nodes_calling_E(fn, lambda c, nm, f: nm in ("_dedent", "_indent",
                                                       "textbuilder.make_regexp_patches",
                                                       "asttokens.ASTText",
-                                                      "_create_syntax_error_code"))
-  ok = bool(norm_nodes) and bool(consumers) and all(cfg.dominated_by(c, norm_nodes)
-                                                    for c in consumers)
-  bad = [c for c in consumers if not cfg.dominated_by(c, norm_nodes)]
+                                                      "_create_syntax_error_code")) - patch_nodes
+  if inline and patch_nodes:
+    # written in place: the patches are computed before every consumer, and a consumer is reached
+    # from there only through the Replacer or along a branch on which there are no patches
+    no_patches = flow.edges_where(
+      lambda e, i: flow.denotes_some(e, i, lambda v, kk: any(v is p for p in patch_calls)), False)
+    seen_, todo_ = set(), [x for k in patch_nodes for x in cfg.succ[k]]
+    while todo_:
+      x = todo_.pop()
+      if x in seen_ or x in norm_nodes:
+        continue
+      seen_.add(x)
+      todo_.extend(y for y in cfg.succ[x] if (x, y) not in no_patches)
+    bad = [c for c in consumers if c in seen_ or not cfg.dominated_by(c, patch_nodes)]
+  else:
+    bad = [c for c in consumers if not cfg.dominated_by(c, norm_nodes)]
+  ok = bool(norm_nodes) and bool(consumers) and not bad
   run.ob(R2, fn.qualname, "%s(...) before _dedent / regexp patches / parsing" % nfi.name,
          "every line-based step sees text whose only line break is LF", ok,
          witness=cfg.describe_path(cfg.path(cfg.entry.id, set(bad[:1]), removed=norm_nodes))
-         if bad else None, fi=fn.fi)
+         if bad else None, fi=fn.fi, missing=not norm_nodes)
   # the normalised builder is the one used afterwards: the normaliser's result is kept (assigned or
   # passed on), and the raw builder it was given is not read again by any later step
-  flow = Flow(fn)
   ok = bool(norm_nodes)
   for nid in norm_nodes:
     n = cfg.nodes[nid]
     for c in calls_in(n.exprs):
-      if fn.name(c) != nfi.name:
+      if not is_norm(c, nid):
         continue
+      def yields(v):
+        """v evaluates to the call's result (possibly as one arm of a conditional expression)"""
+        return v is c or (isinstance(v, ast.IfExp) and (yields(v.body) or yields(v.orelse)))
       kept = (n.kind == "stmt" and isinstance(n.stmt, (ast.Assign, ast.AnnAssign)) and
-              n.stmt.value is c and all(isinstance(t, ast.Name) for t in
-                                        (n.stmt.targets if isinstance(n.stmt, ast.Assign)
-                                         else [n.stmt.target]))) or \
+              yields(n.stmt.value) and all(isinstance(t, ast.Name) for t in
+                                           (n.stmt.targets if isinstance(n.stmt, ast.Assign)
+                                            else [n.stmt.target]))) or \
+          (n.kind == "return" and yields(n.stmt.value)) or \
           any(isinstance(p, ast.Call) and any(a is c for a in list(p.args) +
                                               [k.value for k in p.keywords])
               for e in n.exprs for p in walk_no_nested(e))
-      ok = ok and kept and len(c.args) + len(c.keywords) == 1
+      ok = ok and kept and (inline or len(c.args) + len(c.keywords) == 1)
       raw = c.args[0] if c.args else (c.keywords[0].value if c.keywords else None)
-      if isinstance(raw, ast.Name):
+      rebinds_raw = isinstance(raw, ast.Name) and n.kind == "stmt" and \
+          isinstance(n.stmt, ast.Assign) and \
+          any(isinstance(t, ast.Name) and t.id == raw.id for t in n.stmt.targets)
+      if isinstance(raw, ast.Name) and not rebinds_raw:
         rdefs = flow.reaching(raw.id, nid)[0]
         for m in cfg.reach_after({nid}):
           for e in cfg.nodes[m].exprs:
@@ -451,11 +499,48 @@ def r3_translation(run, w):
   tests = [(e, n.id) for n in cfg.nodes if n.kind == "if" for e in ast.walk(n.stmt.test)
            if any(any_return_call(l.expr, l.nid) for l in flow.leaves(e, n.id))] \
       if errs else []
-  if errs and not tests:
-    raise AnalysisError("_do_make_formula_body: the `any(<is ast.Return> ...)` test guarding the "
-                        "missing-return error was not recognised")
   ok = bool(errs)
-  for c in errs:
+  if errs and not tests:
+    # the same search written as a loop (for/else, or a flag set when a Return node is seen)
+    from ..guards import reachable_with_flags
+    def is_return_test(e, i):
+      """isinstance(<v>, ast.Return) / type(<v>) == ast.Return on the variable of a for loop"""
+      v = None
+      if _is_call_of(e, "isinstance") and len(e.args) == 2 and text(e.args[1]) == "ast.Return":
+        v = e.args[0]
+      elif isinstance(e, ast.Compare) and len(e.ops) == 1 and \
+          isinstance(e.ops[0], (ast.Eq, ast.Is)) and text(e.comparators[0]) == "ast.Return" and \
+          _is_call_of(e.left, "type") and len(e.left.args) == 1:
+        v = e.left.args[0]
+      return v is not None and flow.loop_source(v, i) is not None
+    seen_edges = flow.edges_where(is_return_test, True)
+    if not seen_edges:
+      raise AnalysisError("_do_make_formula_body: the search for a Return node guarding the "
+                          "missing-return error was not recognised")
+    loops = {}
+    for (i, b_) in seen_edges:
+      for e in ast.walk(cfg.nodes[i].stmt.test):
+        if is_return_test(e, i):
+          v = e.args[0] if isinstance(e, ast.Call) else e.left.args[0]
+          src = flow.loop_source(v, i)
+          loops.setdefault(src[1], src[0])
+    whole = {l for (l, it) in loops.items()
+             if any(_walks_tree(flow, y, l) for y in ast.walk(it))}
+    for c in errs:
+      for nid in flow.where(c):
+        # the error is raised only after a loop over the whole tree, and never on a path on which
+        # that loop has seen a Return node
+        starts = {b_ for (i, b_) in seen_edges
+                  if any(i in flow.loop_body(l) for l in whole)}
+        broken = not whole or not starts or \
+            reachable_with_flags(cfg, starts, {nid}, follow_exc=False) is not None
+        if not broken and not cfg.dominated_by(nid, whole):
+          # some path reaches the error without running the search at all; whether that path is
+          # feasible depends on conditions this rule does not correlate
+          raise AnalysisError("_do_make_formula_body: cannot tell whether the missing-return "
+                              "error is always preceded by the search for a Return node")
+        ok = ok and not broken
+  for c in (errs if tests else []):
     for nid in flow.where(c):
       ok = ok and flow.guarded(nid, lambda e, i: flow.denotes(
         e, i, lambda x, n: any_return_call(x, n) and scans_whole_tree(x, n)), False)
@@ -515,6 +600,16 @@ def r4_compile_acceptor(run, w):
         names.add(fi.name)
         changed = True
   acc_nodes = nodes_calling_E(fn, lambda c, nm, f: nm in names)
+  # ... or the acceptor's compile() sits in the function itself
+  own_accept = []     # (node id, the builder expression being indented and compiled)
+  if any(a.qualname == fn.qualname for a in acceptors):
+    for (n, c, nm) in calls_E(fn):
+      if dotted(c.func) == "compile" and arg(c, 0, "source") is not None:
+        s_ = flow.inline(arg(c, 0, "source"), n.id)
+        for x in ast.walk(s_):
+          if isinstance(x, ast.Call) and dotted(x.func) == "_indent" and x.args:
+            own_accept.append((n.id, x.args[0]))
+            acc_nodes = acc_nodes | {n.id}
   # the return of the translated body
   def is_replacer(x, n):
     return isinstance(x, ast.Call) and endswith(dotted(x.func), "Replacer")
@@ -525,10 +620,15 @@ def r4_compile_acceptor(run, w):
   for r in finals:
     ok = bool(acc_nodes) and cfg.dominated_by(r.id, acc_nodes)
     run.ob(R4, fn.qualname, "return %s" % text(r.stmt.value), "the body handed to the module was "
-           "accepted by compile()", ok, fi=fn.fi, node=r.stmt,
+           "accepted by compile()", ok, fi=fn.fi, node=r.stmt, missing=not acc_nodes,
            witness=None if ok else cfg.describe_path(cfg.path(cfg.entry.id, {r.id},
                                                               removed=acc_nodes)))
     # and it is the same builder that was checked
+    for (a, built) in own_accept:
+      run.ob(R4, fn.qualname, "compile('def ...' + _indent(%s))" % short(built, 40),
+             "the builder compiled is the builder returned",
+             text(built) == flow.itext(r.stmt.value, r.id) or
+             text(built) == text(r.stmt.value), fi=fn.fi)
     for a in acc_nodes:
       for c in calls_in(cfg.nodes[a].exprs):
         if fn.name(c) in names:
